@@ -543,7 +543,8 @@ func (r *Resolver) resolve(ctx context.Context, rs *resolveState) (*dns.Msg, err
 
 // scrubAnswer removes from resp's answer section every record the servers of
 // zone cannot speak for in reply to q: it keeps the records owned by the query
-// name, follows CNAMEs only while the target stays inside zone, keeps DNAMEs
+// name that answer the question (the question type, or a CNAME; everything for
+// an ANY or RRSIG question), follows CNAMEs only while the target stays inside zone, keeps DNAMEs
 // that are owned inside zone by an ancestor of the name being followed, and
 // drops everything else. An alias target outside the zone (or any unrelated
 // RRset a server appends to its answer) is never relayed or used: the CNAME /
@@ -565,6 +566,12 @@ func scrubAnswer(resp *dns.Msg, q dns.Question, zone string) {
 			}
 			switch {
 			case owner == cur:
+				if covered != q.Qtype && covered != dns.TypeCNAME && q.Qtype != dns.TypeANY && q.Qtype != dns.TypeRRSIG {
+					// An RRset of another type answers another question,
+					// however genuine its signature: relayed, it would read as
+					// a validated "no such type here" without any denial proof.
+					break
+				}
 				keep[i] = true
 				if c, ok := rr.(*dns.CNAME); ok && q.Qtype != dns.TypeCNAME {
 					next = dns.CanonicalName(c.Target)
